@@ -342,7 +342,9 @@ def finish(ctx, mod, write=True):
             n_viol += 1
             lines.append(f"VIOLATION property={ctx.pid} replay={path}")
             lines.append(f"  key={key} :: {rec['what']} (x{rec['occurrences']})")
-    if write:
+    if write and not os.environ.get("VERIF_NO_EVIDENCE"):
+        # (VERIF_NO_EVIDENCE is set by tools/run_on.sh when a scratch copy is checked, so that
+        # the committed evidence always describes /repo itself)
         write_evidence(ctx, mod, n_viol, n_known)
     for ln in lines:
         print(ln)
